@@ -104,6 +104,29 @@ pub fn stateful_modules() -> Vec<(&'static str, Vec<u8>)> {
                (local.get 1))
             (func (export "tbl") (param i32) (result i32)
                (block $a (block $b (block $c (br_table $a $b $c (local.get 0))) (return (i32.const 3))) (return (i32.const 2))) (i32.const 1)))"#),
+        // every segment mode next to each other: a declared segment is dropped at instantiation
+        // (table.init from it traps for n > 0), a passive one lives until elem.drop, an active one
+        // is dropped after it was applied; the same for data segments
+        ("segment-modes", r#"(module
+            (type $t (func (result i32)))
+            (table $t0 (export "t") 6 funcref)
+            (memory (export "mem") 1)
+            (func $f (result i32) (i32.const 42))
+            (func $g (result i32) (i32.const 43))
+            (elem $act (i32.const 4) func $g)
+            (elem $decl declare func $f $g)
+            (elem $pas func $g $f)
+            (data $dact (i32.const 16) "AB")
+            (data $dpas "xyz")
+            (func (export "init_decl") (param i32) (table.init $t0 $decl (i32.const 0) (i32.const 0) (i32.and (local.get 0) (i32.const 3))))
+            (func (export "init_pas") (param i32) (table.init $t0 $pas (i32.const 2) (i32.const 0) (i32.and (local.get 0) (i32.const 3))))
+            (func (export "init_act") (param i32) (table.init $t0 $act (i32.const 0) (i32.const 0) (i32.and (local.get 0) (i32.const 1))))
+            (func (export "drop_pas") (elem.drop $pas))
+            (func (export "minit_act") (param i32) (memory.init $dact (i32.const 0) (i32.const 0) (i32.and (local.get 0) (i32.const 1))))
+            (func (export "minit_pas") (param i32) (memory.init $dpas (i32.const 4) (i32.const 0) (i32.and (local.get 0) (i32.const 3))))
+            (func (export "ddrop") (data.drop $dpas))
+            (func (export "call") (param i32) (result i32) (call_indirect $t0 (type $t) (i32.rem_u (local.get 0) (i32.const 6))))
+            (func (export "rf") (result i32) (ref.is_null (ref.func $f))))"#),
     ];
     srcs.into_iter().map(|(n, s)| (n, wat::parse_str(s).unwrap_or_else(|e| panic!("stateful module {}: {}", n, e)))).collect()
 }
